@@ -221,9 +221,13 @@ CLAIMED["C15"] = {
             "next.start-1 per same-seqid pair with a base between; none for touching, overlapping, nested pairs or "
             "across a seqid change), N features with positive gaps give N-1, and every column of an interfeature "
             "(featuretype, strand, attributes = per-key sorted duplicate-free union then update_attributes, several ID "
-            "values joined by '-', recomputed bin). create_introns / create_splice_sites are judged on the real code by "
-            "the oracle (gaps between start-ordered exons per transcript, two-base sites labelled by side and strand) "
-            "and are not yet covered by a theorem. Correspondence: exhaustive small geometries, random lists with all "
+            "values joined by '-', recomputed bin). create_introns is exactly the concatenation, over the level-1 children of each "
+            "grandparent feature (or the parent_featuretype features) in table order, of the interfeatures of their "
+            "start-ordered exon children, with the gap geometry (prev.end+1, next.start-1) per consecutive pair "
+            "(introns_exact, introns_geometry); create_splice_sites is all left sites [start,start+1] followed by all "
+            "right sites [end-1,end] of those introns, labelled five/three prime by side and transcript strand, ID "
+            "prefixed when present, twice as many as introns (splice_sites_exact, splice_sites_count, "
+            "splice_sites_nomerge for merge_attributes=False - a repaired KeyError found by this proof). Correspondence: exhaustive small geometries, random lists with all "
             "option combinations.",
     "note": "Trusted: Lean kernel + standard axioms; float() restricted to the decimal grammar; always_return_list=True; "
             "attribute_func=None.",
@@ -237,8 +241,11 @@ CLAIMED["C16"] = {
             "span min start..max end, fresh pairwise-distinct ids, and for one class under the default criteria the "
             "exact interval union (maximal runs of overlapping-or-adjacent intervals, separated by at least one uncovered "
             "base); independence from the children attributes and idempotence on re-used objects (repaired D9, with a "
-            "proved witness of the old failure). children_bp and merge_all are judged on the real code by the oracle "
-            "and are not yet covered by a theorem. Correspondence: all 91 390 start-ordered multisets of <= 4 intervals "
+            "proved witness of the old failure). children_bp is the summed child lengths, or with merge (one class, default criteria) "
+            "the number of covered positions (children_bp_sum, children_bp_union); merge_all appends exactly one row per "
+            "multi-member run and either re-parents its members and adds exactly their level-1 relations or deletes "
+            "exactly the members and every relation naming them, leaving everything else and the persistent counters "
+            "untouched (merge_all_effect). Correspondence: all 91 390 start-ordered multisets of <= 4 intervals "
             "over 8 positions (thorough), random lists, every shipped criterion and threshold, re-used objects.",
     "note": "Trusted: Lean kernel + standard axioms; set order of the merged 'source' compared as a set; inputs are "
             "distinct objects with integer start <= end; seqids without commas.",
